@@ -18,6 +18,7 @@ As per the name, they are decorators of specific classes.
 
 from __future__ import annotations
 
+from copy import deepcopy
 from dataclasses import dataclass
 from typing import Tuple, Dict, List, Union, Any
 
@@ -125,7 +126,7 @@ def list_props(item_class: type, prop_name="_props"):
         # noinspection PyDecorator, PyShadowingNames
         @staticmethod
         def _default(props: dict = props) -> dict:
-            return {k: pd.Series([v[1]], dtype=v[0]) for k, v in props.items()}
+            return {k: pd.Series([deepcopy(v[1])], dtype=v[0]) for k, v in props.items()}
 
         cl._default = _default
 
